@@ -72,6 +72,9 @@ package eval
 //@ spec func edge(env Env, a types.EntityUID, b types.EntityUID) bool
 //@ axiom edge_def: forall env Env, a types.EntityUID, b types.EntityUID :: { edge(env, a, b) } { has(parentsOf(env, a).m, b) } edge(env, a, b) == (present(env, a) && has(parentsOf(env, a).m, b))
 //@ spec func reach(env Env, a types.EntityUID, b types.EntityUID) bool
+// reachability looks at the environment only through the entity store
+//@ spec func reachS(store types.EntityGetter, a types.EntityUID, b types.EntityUID) bool
+//@ axiom reach_store: forall env Env, a types.EntityUID, b types.EntityUID :: { reach(env, a, b) } reach(env, a, b) == reachS(env.Entities, a, b)
 //@ axiom reach_refl: forall env Env, a types.EntityUID :: { reach(env, a, a) } reach(env, a, a)
 //@ axiom reach_step: forall env Env, a types.EntityUID, b types.EntityUID, c types.EntityUID :: { reach(env, a, b), edge(env, b, c) } (reach(env, a, b) && edge(env, b, c)) ==> reach(env, a, c)
 // Induction principle of the closure (least fixed point), checked in Lean
@@ -792,7 +795,7 @@ package eval
 //@   ensures set_err_deterministic: ((rhs is types.Set) && (exists x types.Value :: iter_Set_All(rhs.(types.Set), x) && !(x is types.EntityUID))) ==> err == inSetErr(rhs.(types.Set))
 //@   ensures set_ok: ((rhs is types.Set) && (forall x types.Value :: iter_Set_All(rhs.(types.Set), x) ==> (x is types.EntityUID))) ==> err == nil
 //@   ensures set_sound: ((rhs is types.Set) && err == nil && v == types.Value(types.Boolean(true))) ==> (exists t types.EntityUID :: iter_Set_All(rhs.(types.Set), types.Value(t)) && reach(env, lhs, t))
-//@   ensures set_complete: ((rhs is types.Set) && err == nil && v != types.Value(types.Boolean(true))) ==> (v == types.Value(types.Boolean(false)) && (forall t types.EntityUID :: { reach(env, lhs, t) } iter_Set_All(rhs.(types.Set), types.Value(t)) ==> !reach(env, lhs, t)))
+//@   ensures set_complete: ((rhs is types.Set) && err == nil && v != types.Value(types.Boolean(true))) ==> (v == types.Value(types.Boolean(false)) && (forall t types.EntityUID :: { reach(env, lhs, t) } { iter_Set_All(rhs.(types.Set), types.Value(t)) } iter_Set_All(rhs.(types.Set), types.Value(t)) ==> !reach(env, lhs, t)))
 //@   loop 1
 //@     invariant query != nil
 //@     invariant forall x types.Value :: { $done[x] } $done[x] ==> ((x is types.EntityUID) && has(query.m, x.(types.EntityUID)))
@@ -1232,3 +1235,26 @@ package eval
 //@ lemma C06 partial_known_IsIn dispatch Evaler.Eval@isInEval@literalEval@errorEval: forall n ast.IsNode, env Env :: ((n is ast.NodeTypeIsIn) && storeKnown(env) && litKnown(n) && knownIH(env, n.(ast.NodeTypeIsIn).Left) && knownIH(env, n.(ast.NodeTypeIsIn).Entity) && pE(env, n) == nil && (pN(env, n) is ast.NodeValue)) ==> known(pN(env, n).(ast.NodeValue).Value)
 //@ lemma C06 partial_known_Variable dispatch Evaler.Eval@variableEval: forall n ast.IsNode, env Env :: ((n is ast.NodeTypeVariable) && (n.(ast.NodeTypeVariable).Name == "principal" || n.(ast.NodeTypeVariable).Name == "action" || n.(ast.NodeTypeVariable).Name == "resource" || n.(ast.NodeTypeVariable).Name == "context") && pE(env, n) == nil && (pN(env, n) is ast.NodeValue)) ==> known(pN(env, n).(ast.NodeValue).Value)
 //@ lemma C06 partial_known_Value: forall n ast.IsNode, env Env :: ((n is ast.NodeValue) && litKnown(n) && pE(env, n) == nil && (pN(env, n) is ast.NodeValue)) ==> known(pN(env, n).(ast.NodeValue).Value)
+
+// The value an operator yields on literal operands depends on the environment only through
+// the entity store: it is the same under every completion of the request (which leaves the
+// store unchanged). One lemma per operator.
+//@ spec func sameRes(e Evaler, env Env, env2 Env) bool = ((evE(e, env) == nil) == (evE(e, env2) == nil)) && (evE(e, env) == nil ==> evV(e, env) == evV(e, env2))
+//@ lemma C06 partial_sem_In dispatch Evaler.Eval@inEval@literalEval: forall a types.Value, b types.Value, env Env, env2 Env, n ast.IsNode :: (env.Entities == env2.Entities && n == ast.IsNode(mkstruct(ast.NodeTypeIn, mkstruct(ast.BinaryNode, litNode(a), litNode(b))))) ==> sameRes(ToEval#0(n), env, env2)
+//@ lemma C06 partial_sem_Equals dispatch Evaler.Eval@equalEval@literalEval: forall a types.Value, b types.Value, env Env, env2 Env, n ast.IsNode :: (env.Entities == env2.Entities && n == ast.IsNode(mkstruct(ast.NodeTypeEquals, mkstruct(ast.BinaryNode, litNode(a), litNode(b))))) ==> sameRes(ToEval#0(n), env, env2)
+//@ lemma C06 partial_sem_NotEquals dispatch Evaler.Eval@notEqualEval@literalEval: forall a types.Value, b types.Value, env Env, env2 Env, n ast.IsNode :: (env.Entities == env2.Entities && n == ast.IsNode(mkstruct(ast.NodeTypeNotEquals, mkstruct(ast.BinaryNode, litNode(a), litNode(b))))) ==> sameRes(ToEval#0(n), env, env2)
+//@ lemma C06 partial_sem_GreaterThan dispatch Evaler.Eval@comparableValueGreaterThanEval@literalEval: forall a types.Value, b types.Value, env Env, env2 Env, n ast.IsNode :: (env.Entities == env2.Entities && n == ast.IsNode(mkstruct(ast.NodeTypeGreaterThan, mkstruct(ast.BinaryNode, litNode(a), litNode(b))))) ==> sameRes(ToEval#0(n), env, env2)
+//@ lemma C06 partial_sem_GreaterThanOrEqual dispatch Evaler.Eval@comparableValueGreaterThanOrEqualEval@literalEval: forall a types.Value, b types.Value, env Env, env2 Env, n ast.IsNode :: (env.Entities == env2.Entities && n == ast.IsNode(mkstruct(ast.NodeTypeGreaterThanOrEqual, mkstruct(ast.BinaryNode, litNode(a), litNode(b))))) ==> sameRes(ToEval#0(n), env, env2)
+//@ lemma C06 partial_sem_LessThan dispatch Evaler.Eval@comparableValueLessThanEval@literalEval: forall a types.Value, b types.Value, env Env, env2 Env, n ast.IsNode :: (env.Entities == env2.Entities && n == ast.IsNode(mkstruct(ast.NodeTypeLessThan, mkstruct(ast.BinaryNode, litNode(a), litNode(b))))) ==> sameRes(ToEval#0(n), env, env2)
+//@ lemma C06 partial_sem_LessThanOrEqual dispatch Evaler.Eval@comparableValueLessThanOrEqualEval@literalEval: forall a types.Value, b types.Value, env Env, env2 Env, n ast.IsNode :: (env.Entities == env2.Entities && n == ast.IsNode(mkstruct(ast.NodeTypeLessThanOrEqual, mkstruct(ast.BinaryNode, litNode(a), litNode(b))))) ==> sameRes(ToEval#0(n), env, env2)
+//@ lemma C06 partial_sem_Mult dispatch Evaler.Eval@multiplyEval@literalEval: forall a types.Value, b types.Value, env Env, env2 Env, n ast.IsNode :: (env.Entities == env2.Entities && n == ast.IsNode(mkstruct(ast.NodeTypeMult, mkstruct(ast.BinaryNode, litNode(a), litNode(b))))) ==> sameRes(ToEval#0(n), env, env2)
+//@ lemma C06 partial_sem_Contains dispatch Evaler.Eval@containsEval@literalEval: forall a types.Value, b types.Value, env Env, env2 Env, n ast.IsNode :: (env.Entities == env2.Entities && n == ast.IsNode(mkstruct(ast.NodeTypeContains, mkstruct(ast.BinaryNode, litNode(a), litNode(b))))) ==> sameRes(ToEval#0(n), env, env2)
+//@ lemma C06 partial_sem_ContainsAll dispatch Evaler.Eval@containsAllEval@literalEval: forall a types.Value, b types.Value, env Env, env2 Env, n ast.IsNode :: (env.Entities == env2.Entities && n == ast.IsNode(mkstruct(ast.NodeTypeContainsAll, mkstruct(ast.BinaryNode, litNode(a), litNode(b))))) ==> sameRes(ToEval#0(n), env, env2)
+//@ lemma C06 partial_sem_ContainsAny dispatch Evaler.Eval@containsAnyEval@literalEval: forall a types.Value, b types.Value, env Env, env2 Env, n ast.IsNode :: (env.Entities == env2.Entities && n == ast.IsNode(mkstruct(ast.NodeTypeContainsAny, mkstruct(ast.BinaryNode, litNode(a), litNode(b))))) ==> sameRes(ToEval#0(n), env, env2)
+//@ lemma C06 partial_sem_GetTag dispatch Evaler.Eval@getTagEval@literalEval: forall a types.Value, b types.Value, env Env, env2 Env, n ast.IsNode :: (env.Entities == env2.Entities && n == ast.IsNode(mkstruct(ast.NodeTypeGetTag, mkstruct(ast.BinaryNode, litNode(a), litNode(b))))) ==> sameRes(ToEval#0(n), env, env2)
+//@ lemma C06 partial_sem_HasTag dispatch Evaler.Eval@hasTagEval@literalEval: forall a types.Value, b types.Value, env Env, env2 Env, n ast.IsNode :: (env.Entities == env2.Entities && n == ast.IsNode(mkstruct(ast.NodeTypeHasTag, mkstruct(ast.BinaryNode, litNode(a), litNode(b))))) ==> sameRes(ToEval#0(n), env, env2)
+//@ lemma C06 partial_sem_Sub dispatch Evaler.Eval@subtractEval@literalEval: forall a types.Value, b types.Value, env Env, env2 Env, n ast.IsNode :: (env.Entities == env2.Entities && n == ast.IsNode(mkstruct(ast.NodeTypeSub, mkstruct(ast.BinaryNode, litNode(a), litNode(b)), mkstruct(ast.AddNode)))) ==> sameRes(ToEval#0(n), env, env2)
+//@ lemma C06 partial_sem_Add dispatch Evaler.Eval@addEval@literalEval: forall a types.Value, b types.Value, env Env, env2 Env, n ast.IsNode :: (env.Entities == env2.Entities && n == ast.IsNode(mkstruct(ast.NodeTypeAdd, mkstruct(ast.BinaryNode, litNode(a), litNode(b)), mkstruct(ast.AddNode)))) ==> sameRes(ToEval#0(n), env, env2)
+//@ lemma C06 partial_sem_Negate dispatch Evaler.Eval@negateEval@literalEval: forall a types.Value, env Env, env2 Env, n ast.IsNode :: (env.Entities == env2.Entities && n == ast.IsNode(mkstruct(ast.NodeTypeNegate, mkstruct(ast.UnaryNode, litNode(a))))) ==> sameRes(ToEval#0(n), env, env2)
+//@ lemma C06 partial_sem_Not dispatch Evaler.Eval@notEval@literalEval: forall a types.Value, env Env, env2 Env, n ast.IsNode :: (env.Entities == env2.Entities && n == ast.IsNode(mkstruct(ast.NodeTypeNot, mkstruct(ast.UnaryNode, litNode(a))))) ==> sameRes(ToEval#0(n), env, env2)
+//@ lemma C06 partial_sem_IsEmpty dispatch Evaler.Eval@isEmptyEval@literalEval: forall a types.Value, env Env, env2 Env, n ast.IsNode :: (env.Entities == env2.Entities && n == ast.IsNode(mkstruct(ast.NodeTypeIsEmpty, mkstruct(ast.UnaryNode, litNode(a))))) ==> sameRes(ToEval#0(n), env, env2)
